@@ -35,7 +35,13 @@ func universes(prop string, thorough bool) []*ledger.Universe {
 	add(ledger.GenBounds{N: 2, MaxIn: 2, MaxOut: 2, Coinbase: true, Shared: 1})
 	us = append(us, ledger.Curated()...)
 	if thorough {
-		add(ledger.GenBounds{N: 3, MaxIn: 2, MaxOut: 2, Coinbase: true, Shared: 1})
+		// (the full product N=3, <=2 inputs, <=2 outputs with all output kinds is 396 868
+		// universes, about an hour; the families below keep every input shape and drop
+		// only the change-flag variants of two-output transactions)
+		add(ledger.GenBounds{N: 3, MaxIn: 2, MaxOut: 1, Coinbase: true, Shared: 1})
+		add(ledger.GenBounds{N: 3, MaxIn: 1, MaxOut: 2, Coinbase: true, Shared: 1, PlainOuts: true})
+		add(ledger.GenBounds{N: 3, MaxIn: 2, MaxOut: 2, Coinbase: false, Shared: 0, PlainOuts: true})
+		add(ledger.GenBounds{N: 4, MaxIn: 1, MaxOut: 1, Coinbase: true, Shared: 1})
 	} else {
 		add(ledger.GenBounds{N: 3, MaxIn: 1, MaxOut: 1, Coinbase: true, Shared: 1})
 		add(ledger.GenBounds{N: 3, MaxIn: 2, MaxOut: 1, Coinbase: false, Shared: 1})
